@@ -3,11 +3,12 @@
 (* rewriting or not.  One behaviour = one case.                              *)
 EXTENDS TypeFollow, Json, IOUtils
 CONSTANTS Contexts
-Cases == {cs2 \in {[pl |-> pl, ctx |-> cx, two |-> tw, rw |-> rw] :
+Cases == {cs2 \in {[pl |-> pl, ctx |-> cx, two |-> tw, rw |-> rw, alias |-> al] :
                        pl \in {"class", "method", "both", "func", "param"}, cx \in Contexts,
-                       tw \in BOOLEAN, rw \in BOOLEAN} :
+                       tw \in BOOLEAN, rw \in BOOLEAN, al \in BOOLEAN} :
              (* the chained context has two sites by construction and needs methods *)
-             cs2.ctx = ChainCtx => (cs2.two /\ cs2.pl \in {"class", "method", "both"})}
+             /\ cs2.ctx = ChainCtx => (cs2.two /\ cs2.pl \in {"class", "method", "both"} /\ ~cs2.alias)
+             /\ cs2.alias => cs2.two}
 VARIABLE cs
 Init == cs \in Cases
 Next == UNCHANGED cs
